@@ -86,6 +86,23 @@ Theorem C04_always_returns :
 Proof. exact always_returns_not_normal. Qed.
 Print Assumptions C04_always_returns.
 
+(* Ownership assertion used by the translator for the fields that hold a
+   container owned by a QobjEvo (`elements`, `_feedback_functions`,
+   `_solver_only_feedback`): a callee that writes nothing but must be allowed
+   to write its argument is accepted only if that argument is certainly not
+   an object of the caller - so an accepted function never stores a caller's
+   container into such a field. *)
+Theorem C04_assert_new_sound :
+  forall n0 a a1 v r y st,
+    aexpr (ECall [(0, [])] r [y]) a = Some (a1, v) -> Inv n0 a st ->
+    n0 <= env st y < nx st.
+Proof.
+  intros n0 a a1 v r y st H [_ HI]. simpl in H.
+  destruct (alookup a y) as [F|] eqn:E; [|discriminate].
+  destruct (HI y F E) as [Hnew _]. exact Hnew.
+Qed.
+Print Assumptions C04_assert_new_sound.
+
 (* ------------------------------------------------------------ refutations *)
 (* The shape `rhs = H if c else L(H); rhs += D` (MESolver.__init__ on the
    unchanged tree): the checker rejects it, and there is an execution of the
